@@ -44,6 +44,13 @@ def denominators(prop, tier, seed, a):
             groups = denom.groups_for(w, tier, seed)
             t = {'ll': llpath, 'meta': w, 'cfg': cfg.name, 'prop': prop, 'budget': budget, 'known': kf, 'ir_hash': h, 'also': [],
                  'handler': 'avelverif.denom.solve_task', 'groups': groups, 'tier': tier, 'soft_s': (15 if prop == 'C15' else 25) if tier == 'quick' else 2400}
+            if w['op'] == 'div64uhi':
+                t['handler'] = 'avelverif.denom.solve_div64'
+                t['soft_s'] = 60 if tier == 'quick' else 900
+                ls = [34, 36, 40, 44, 48, 52, 56, 60, 62, 63] if tier == 'quick' else list(range(2, 64))
+                t['l'] = ls[0]
+                for l_ in ls[1:]:
+                    tasks.append(dict(t, l=l_, also=[]))
             dedup[key] = t
             tasks.append(t)
     print('[%s %s] %d configurations, %d wrappers x divisor lattices to decide (%d identical-IR duplicates folded), %d dropped at compile time'
